@@ -364,7 +364,41 @@ func RunCut(sp *CutSpec) CutResult {
 	startPins := addPins("", pinsOf(sp.Assume))
 	seen := map[string]bool{}
 	var queue []*cutState
+	// Prune: a state in a block from which no (statically possible) target
+	// instruction is reachable cannot contribute a violation. The static
+	// test uses the identity resolver, which over-approximates the
+	// return-style targets; specs whose targets depend on the path
+	// (MinTargets < 0) and event-counting specs are not pruned.
+	var canReach map[*ssa.BasicBlock]bool
+	if sp.Target != nil && sp.MinTargets >= 0 && sp.EventInstr == nil && sp.EventEdge == nil {
+		canReach = map[*ssa.BasicBlock]bool{}
+		var work []*ssa.BasicBlock
+		for _, b := range fn.Blocks {
+			for _, in := range b.Instrs {
+				if sp.Target(in, idRes) {
+					if !canReach[b] {
+						canReach[b] = true
+						work = append(work, b)
+					}
+					break
+				}
+			}
+		}
+		for len(work) > 0 {
+			b := work[len(work)-1]
+			work = work[:len(work)-1]
+			for _, p := range b.Preds {
+				if !canReach[p] {
+					canReach[p] = true
+					work = append(work, p)
+				}
+			}
+		}
+	}
 	push := func(st *cutState) {
+		if canReach != nil && !canReach[st.b] {
+			return
+		}
 		k := fmt.Sprint(st.b.Index, "|", st.events) + "|" + st.env + "|" + st.pins
 		if seen[k] {
 			return
